@@ -29,6 +29,13 @@ def to_code_data(code: CodeType) -> CodeData:
     else:
         posonlyargcount = 0
 
+    # The number of locals is not saved, it is computed from the varnames
+    if code.co_nlocals != len(code.co_varnames):
+        raise ValueError(
+            f"Number of locals {code.co_nlocals} is not the number of varnames "
+            f"{len(code.co_varnames)}"
+        )
+
     line_mapping = to_line_mapping(code)
 
     line_mapping.modify_line_offsets(code.co_firstlineno)
